@@ -124,6 +124,41 @@ Theorem c20_valid_skip_empty_refuted :
 Proof. exact valid_thunk_skip_empty_refuted. Qed.
 Print Assumptions c20_valid_skip_empty_refuted.
 
+(* Input ids: the client's range is 0 .. kMaximumInputID INCLUSIVE (only greater ids are reserved); a request with such an id is
+   answered by provide_value carrying that very id; a greater id is rejected.  The deviation "drop deliveries with
+   id >= kMaximumInputID" (seeded/C20-8) differs exactly at kMaximumInputID. *)
+Theorem c20_capi_input_id_ok : forall id, capi_input_id_ok id = true <-> id <= kMaximumInputID.
+Proof. exact capi_input_id_ok_spec. Qed.
+Print Assumptions c20_capi_input_id_ok.
+
+Theorem c20_accepted_id_delivered : forall e t ti key rest id v,
+  id <= kMaximumInputID ->
+  option_map view (request_then_provide e t ti (data_of key rest) id v) = Some (VProvideValue (ct_context t) e ti id v).
+Proof. exact capi_accepted_id_delivered. Qed.
+Print Assumptions c20_accepted_id_delivered.
+
+Theorem c20_reserved_id_rejected : forall e t ti key id v, kMaximumInputID < id -> request_then_provide e t ti key id v = None.
+Proof. exact capi_reserved_id_rejected. Qed.
+Print Assumptions c20_reserved_id_rejected.
+
+Theorem c20_provide_guard_ge_refuted :
+  exists e t ti id key v, capi_input_id_ok id = true /\ backward_provide_guard_ge e t ti id key v = None /\
+                          backward e (BProvideValue t ti id key v) <> None.
+Proof. exact backward_provide_guard_ge_refuted. Qed.
+Print Assumptions c20_provide_guard_ge_refuted.
+
+(* update_status: every notification for a rule - over any history, across builds of one engine - reaches the client; reporting
+   "only transitions" (seeded/C20-7) loses the scanning notification of the build after one abandoned on a cycle. *)
+Theorem c20_status_all_forwarded : forall e ec key r ss,
+  cr_has_status r = true ->
+  status_trace e (wrap_rule ec key r) ss = map (fun s => Some (VUpdateStatus (cr_context r) ec s)) ss.
+Proof. exact capi_status_all_forwarded. Qed.
+Print Assumptions c20_status_all_forwarded.
+
+Theorem c20_status_dedup_refuted : exists ss, dedup_statuses None ss <> ss.
+Proof. exact dedup_statuses_refuted. Qed.
+Print Assumptions c20_status_dedup_refuted.
+
 Theorem c20_task_interface_roundtrip : forall t, ti_in (ti_out t) = t.
 Proof. exact ti_in_out. Qed.
 Print Assumptions c20_task_interface_roundtrip.
@@ -197,3 +232,7 @@ Proof. exact ex_backward_provide. Qed.
 Example c20_instance_valid_empty :
   valid_thunk (mkCRule 0 (data_of [] []) true true) (fun v => match v with [] => true | _ => false end) [] = true.
 Proof. exact ex_valid_empty_asked. Qed.
+Example c20_instance_max_id :
+  option_map view (request_then_provide 3 (mkCTask 4) (mkCTi 1 2) (data_of [105; 0] [0]) kMaximumInputID [9])
+  = Some (VProvideValue 4 3 (mkCTi 1 2) 18446744073709551360 [9]).
+Proof. exact ex_max_id_delivered. Qed.
